@@ -65,7 +65,8 @@ def run_behaviours(arena: Arena, behaviours: List[List[dict]]) -> Tuple[List, Li
     guard = 0
     while todo and guard < 50:
         guard += 1
-        res = arena.run([behaviours[i] for i in todo])
+        # the time budget grows with the work: a slow machine must not look like a macro that never returns
+        res = arena.run([behaviours[i] for i in todo], budget_s=60.0 + 0.25 * len(todo))
         done = 0
         for k, r in enumerate(res):
             if r is None:
@@ -74,6 +75,13 @@ def run_behaviours(arena: Arena, behaviours: List[List[dict]]) -> Tuple[List, Li
             done += 1
         if done == len(todo):
             break
+        if arena.last_end == "budget":
+            # out of time inside behaviour todo[done]: give it a run of its own before calling it non-terminating
+            alone = arena.run([behaviours[todo[done]]], budget_s=120.0)
+            if alone[0] is not None:
+                results[todo[done]] = alone[0]
+                todo = todo[done + 1:]
+                continue
         broken.append(todo[done])
         arena.__dict__.setdefault("break_reasons", {})[todo[done]] = (arena.last_end, arena.broke_at)
         todo = todo[done + 1:]
